@@ -640,3 +640,76 @@ def closure_self_writes(prog, parent, closure):
         if f:
             out.add(f)
     return out
+
+
+# ------------------------------------------------------------------------------------
+# "apply to every element" idioms: iter_mut().for_each(closure) / for x in iter_mut() { .. } / slice::fill
+# ------------------------------------------------------------------------------------
+def each_element_update(prog, f, want_field_owner=None):
+    """recognises a statement-level update of every element of a container reached from *self:
+    returns dict(kind='for_each'|'loop'|'fill', receiver_fields=set, adaptors=[..], store=rvalue-or-const, closure=Fn|None, bb=block,
+    unconditional=bool) or None"""
+    from facts import callee_is as _ci
+    # (1) for_each
+    fe = calls(f, "core::iter::traits::iterator::Iterator::for_each")
+    if len(fe) == 1:
+        b, t = fe[0]
+        sl, info = f.slice_locals(t["args"][0])
+        adaptors = [(x[1]["callee"].get("path") or "").split("::")[-1] for x in info["calls"]]
+        cl = None
+        l = op_local(t["args"][1])
+        d = f.single_def(l) if l is not None else None
+        if d and d[0] == "assign" and d[3]["k"] == "aggregate" and d[3]["akind"] == "closure":
+            cl = prog.fn(d[3]["closure"])
+        store = None
+        if cl is not None:
+            for b2, i2, p2, rv2, s2 in cl.assigns():
+                if p2 == (2, (("deref",),)):
+                    store = rv2
+        return {"kind": "for_each", "fields": info["fields"], "adaptors": adaptors, "store": store, "closure": cl, "bb": b,
+                "capture_call": t, "unconditional": not list(f.switches()) and f.postdominates(b, 0), "store_fn": cl}
+    # (2) slice::fill
+    fl = calls(f, "core::slice::<impl [T]>::fill")
+    if len(fl) == 1:
+        b, t = fl[0]
+        sl, info = f.slice_locals(t["args"][0])
+        adaptors = [(x[1]["callee"].get("path") or "").split("::")[-1] for x in info["calls"]]
+        return {"kind": "fill", "fields": info["fields"], "adaptors": adaptors, "store": {"k": "use", "op": t["args"][1]}, "closure": None, "bb": b,
+                "unconditional": not list(f.switches()) and f.postdominates(b, 0), "store_fn": f}
+    # (3) for loop over into_iter(iter_mut(..))
+    nx = calls(f, "core::iter::traits::iterator::Iterator::next")
+    if len(nx) == 1:
+        b, t = nx[0]
+        sws = switches_on_call_result(f, b)
+        if len(sws) == 1:
+            sb = sws[0][0]
+            some_t = edge_target(f.term(sb), 1)
+            none_t = edge_target(f.term(sb), 0)
+            # the iterator
+            itl = op_local(t["args"][0])
+            itp = f.resolve_ptr(itl) if itl is not None else None
+            sl, info = f.slice_locals(itp[0] if itp else itl)
+            adaptors = [(x[1]["callee"].get("path") or "").split("::")[-1] for x in info["calls"] if x[0] != b]
+            payload = None
+            store = None
+            body = arm_region(f, sb, some_t)
+            for b2 in sorted(body):
+                for s2 in f.stmts(b2):
+                    if s2["k"] != "assign":
+                        continue
+                    p2 = P(s2["place"])
+                    if p2[1] == (("deref",),):
+                        d = f.single_def(p2[0])
+                        if d and d[0] == "assign" and d[3]["k"] == "use":
+                            q = op_place(d[3]["op"])
+                            if q and q[0] == call_dest_local(t) and any(e[0] == "downcast" and e[1] == "Some" for e in q[1]):
+                                store = s2["rv"]
+                                payload = p2[0]
+            # loop exits only on None; the only switch is the one on next()
+            sw_all = [x for x, _ in f.switches()]
+            loop = {x for x in f.reachable_from(b) if b in f.reachable_from(x)}
+            exits = [(x, s) for x in loop for s in f.succ.get(x, []) if s not in loop and f.term(s)["k"] != "unreachable"]
+            uncond = sw_all == [sb] and exits == [(sb, none_t)] and f.dominates(b, none_t)
+            return {"kind": "loop", "fields": info["fields"], "adaptors": adaptors, "store": store, "closure": None, "bb": b,
+                    "unconditional": uncond, "store_fn": f, "payload": payload}
+    return None
